@@ -70,7 +70,30 @@ fn oracle(n: usize, arcs: &[(usize, usize, u64)], s: usize, t: usize) -> u64 {
     }
 }
 
+/// `judge_inner` on a helper thread with a deadline (an augmenting loop that pushes 0 units never ends)
 pub fn judge(t: &Topo, caps: &[u8], s: usize, snk: usize) -> Vec<String> {
+    use std::sync::atomic::{AtomicBool, Ordering};
+    static HUNG: AtomicBool = AtomicBool::new(false);
+    if HUNG.load(Ordering::SeqCst) {
+        return vec!["(not run: an earlier network made ford_fulkerson loop for ever)".into()];
+    }
+    let (t2, c2) = (t.clone(), caps.to_vec());
+    let (tx, rx) = std::sync::mpsc::channel();
+    std::thread::spawn(move || {
+        let r = std::panic::catch_unwind(|| judge_inner(&t2, &c2, s, snk));
+        let _ = tx.send(r.map_err(|p| payload_msg(&p)));
+    });
+    match rx.recv_timeout(std::time::Duration::from_secs(10)) {
+        Ok(Ok(b)) => b,
+        Ok(Err(msg)) => std::panic::panic_any(msg),
+        Err(_) => {
+            HUNG.store(true, Ordering::SeqCst);
+            vec![format!("ford_fulkerson did not terminate within 10 s on capacities {:?}", caps)]
+        }
+    }
+}
+
+fn judge_inner(t: &Topo, caps: &[u8], s: usize, snk: usize) -> Vec<String> {
     let mut bad = vec![];
     let arcs: Vec<(usize, usize, u64)> = t.edges.iter().zip(caps).map(|(&(a, b), &c)| (a, b, c as u64)).collect();
     let want = oracle(t.n, &arcs, s, snk);
